@@ -27,8 +27,8 @@ def dec(ty, x):
 
 def enc(ty, v):
     if ty == "str":
-        if isinstance(v, bytes):
-            v = v.decode()
+        if not isinstance(v, str):
+            return -7                      # a text cell must come back as text (not bytes)
         return STRS.index(v)
     if ty == "float64":
         return struct.unpack("<Q", struct.pack("<d", float(v)))[0]
@@ -101,8 +101,32 @@ def main():
         ident = (df.id, df.type, df.name)
         obs = [observe(df, False)]
         reads_ok = True
-        for op in c["ops"]:
+        # several Python objects for the one frame: the creation result, the block's container, a group's member
+        # list, a feature's data; each has read the frame once (whatever it caches, it has cached)
+        created = df
+
+        def all_handles(first):
+            bb = f.blocks["b"]
+            hs = [first, bb.data_frames["df"]]
+            try:
+                if "g" not in bb.groups:
+                    g = bb.create_group("g", "t")
+                    g.data_frames.append(first)
+                    t = bb.create_tag("tg", "t", [0.0])
+                    t.create_feature(first, nixio.LinkType.Untagged)
+                hs.append(bb.groups["g"].data_frames[0])
+                hs.append(bb.tags["tg"].features[0].data)
+            except Exception:
+                pass
+            for h in hs:
+                observe(h, False)
+            return hs
+        handles = all_handles(created) if c.get("multi") else [df]
+        for opi, op in enumerate(c["ops"]):
             refused = False
+            df = handles[(op[-1] if c.get("multi") else 0) % len(handles)]
+            if c.get("multi"):
+                op = op[:-1]
             tys = [TYPES[col_ty(d)] for d in df.dtype]
             try:
                 if op[0] == "append_rows":
@@ -128,15 +152,26 @@ def main():
                     try:
                         f.blocks["b"].create_data_frame("df", "other", col_dict=OrderedDict([("zz", np.int64)]))
                     finally:
-                        df = f.blocks["b"].data_frames["df"]
+                        pass
                 elif op[0] == "reopen":
                     f.close()
                     gc.collect()
                     f = nixio.File.open(path, nixio.FileMode.ReadWrite)
-                    df = f.blocks["b"].data_frames["df"]
+                    handles = all_handles(f.blocks["b"].data_frames["df"]) if c.get("multi") else [f.blocks["b"].data_frames["df"]]
             except Exception as exc:
                 refused = True
+            # observe through ANOTHER object than the one that did the write; every object must show the same table
+            df = handles[(opi + 1) % len(handles)]
             ob = observe(df, refused, ident)
+            if c.get("multi"):
+                for h in handles:
+                    try:
+                        if observe(h, refused, ident)[1:] != ob[1:]:
+                            ob[0] += 400
+                            break
+                    except Exception:
+                        ob[0] += 400
+                        break
             # read paths must agree with the full read
             try:
                 n = len(df)
